@@ -22,6 +22,7 @@ var props = map[string]func(*check.Ctx) int{
 	"C12": check.C12,
 	"C13": check.C13,
 	"C14": check.C14,
+	"C20": check.C20,
 }
 
 func dispatch(cmd string, args []string) bool {
